@@ -278,6 +278,9 @@ func Main(t *testing.T, property string, components any, prop func(r *Run)) {
 		if maxRuns > 0 && cur.Runs >= maxRuns {
 			break
 		}
+		if mb := int(envInt("VERIF_MAXBATCHES", 0)); mb > 0 && b+1 >= mb {
+			break
+		}
 	}
 	cur.Failed = !ok
 	cur.WallS = time.Since(start).Seconds()
